@@ -15,6 +15,40 @@ func c20(c *core.Ctx, r *core.Report) {
 	r.NotDecided = []string{"behaviour of the components themselves"}
 	cs := c.MustFn("pkg/f1", "CombineScenarios")
 	var setupFn, iterFn *ssa.Function
+	// by role: the setup function is the ScenarioFn value CombineScenarios returns, the iteration function the RunFn
+	// value that one returns — function literals or methods taken as values
+	fnBehind := func(v ssa.Value) *ssa.Function {
+		for i := 0; i < 4; i++ {
+			switch x := v.(type) {
+			case *ssa.ChangeType:
+				v = x.X
+			case *ssa.MakeClosure:
+				if f, ok := x.Fn.(*ssa.Function); ok {
+					return an.Unwrap(f)
+				}
+				return nil
+			case *ssa.Function:
+				return x
+			default:
+				return nil
+			}
+		}
+		return nil
+	}
+	for _, ret := range an.Returns(cs) {
+		if len(ret.Results) == 1 {
+			if f := fnBehind(ret.Results[0]); f != nil && f.Parent() == nil {
+				setupFn = f
+				for _, r2 := range an.Returns(f) {
+					if len(r2.Results) == 1 {
+						if g := fnBehind(r2.Results[0]); g != nil {
+							iterFn = g
+						}
+					}
+				}
+			}
+		}
+	}
 	for _, a := range cs.AnonFuncs {
 		if a.Signature.Results().Len() == 1 && an.IsNamed(a.Signature.Results().At(0).Type(), testingPkg, "RunFn") {
 			setupFn = a
@@ -163,12 +197,45 @@ func c20(c *core.Ctx, r *core.Report) {
 				}
 			}
 		}
+		if ia, ok := an.Strip(ic.Common().Value).(*ssa.IndexAddr); ok && !okList {
+			// the iteration function is a method taken as a value on the collected list: the list walked is its receiver,
+			// bound where the setup returns it
+			lv := an.EventFV(*iev, ia.X).Resolve(nil).V
+			if rp, isP := lv.(*ssa.Parameter); isP && rp.Parent() == iterFn && an.ParamIndex(rp) == 0 && iterFn.Signature.Recv() != nil {
+				for _, ret := range an.Returns(setupFn) {
+					mc, isMC := an.Strip(ret.Results[0]).(*ssa.MakeClosure)
+					if ct, isCT := an.Strip(ret.Results[0]).(*ssa.ChangeType); isCT {
+						mc, isMC = ct.X.(*ssa.MakeClosure)
+					}
+					if !isMC || len(mc.Bindings) != 1 {
+						continue
+					}
+					if f, isF := mc.Fn.(*ssa.Function); !isF || an.Unwrap(f) != iterFn {
+						continue
+					}
+					bv := an.Strip(an.RootFV(setupFn, mc.Bindings[0]).Resolve(nil).V)
+					switch {
+					case listPhi != nil:
+						okList = bv == ssa.Value(listPhi)
+					case target != nil:
+						if ld, isLd := mc.Bindings[0].(*ssa.UnOp); isLd {
+							okList = ld.X == ssa.Value(target)
+						}
+					}
+				}
+			}
+		}
 		r.Check(okList, "CombineScenarios$iter#list", an.Pos(c, ic), "the iteration closure walks the list its setup filled", "the iteration closure walks "+an.D().Of(ic.Common().Value)+", not the list filled by its setup")
 		// the closures returned are these
 		for _, ret := range an.Returns(setupFn) {
 			mc, ok := an.Strip(ret.Results[0]).(*ssa.MakeClosure)
 			if ct, isCT := an.Strip(ret.Results[0]).(*ssa.ChangeType); isCT {
 				mc, ok = ct.X.(*ssa.MakeClosure)
+			}
+			if ok && mc.Fn != ssa.Value(iterFn) {
+				if f, isF := mc.Fn.(*ssa.Function); isF && an.Unwrap(f) == iterFn {
+					mc = &ssa.MakeClosure{Fn: iterFn}
+				}
 			}
 			r.Check(ok && mc.Fn == ssa.Value(iterFn), "CombineScenarios$setup#returns", an.Pos(c, ret), "the setup returns the walking closure", "the setup closure returns "+an.D().Of(ret.Results[0]))
 		}
